@@ -18,6 +18,7 @@ import (
 	"perun.network/go-perun/client"
 	"perun.network/go-perun/wallet"
 	"perun.network/go-perun/wire"
+	wiretest "perun.network/go-perun/wire/test"
 	"verif/harness/drv"
 )
 
@@ -86,6 +87,19 @@ func sign(acc wallet.Account, s *channel.State) wallet.Sig {
 func (a *advWorld) craft(class string, n int) (wire.Msg, map[wallet.BackendID]wire.Address) {
 	w, h, p, x := a.w, a.h, a.p, a.x
 	S, P := x.WireAddr(), p.WireAddr()
+	if strings.HasPrefix(class, "u-") { // the same message as the "s-" / "p-" class, from an address that never takes a message
+		inner := map[string]string{"u-sync-known": "s-sync-known", "u-sync-current": "p-sync-current",
+			"u-update-known-badsig": "s-update-known-badsig", "u-subprop-foreign": "s-subprop-foreign"}[class]
+		m, _ := a.craft(inner, n)
+		u := wiretest.NewRandomAddressesMap(w.Rng, 1)[0]
+		w.Bus.mu.Lock()
+		if w.Bus.Unreachable == nil {
+			w.Bus.Unreachable = map[wire.AddrKey]bool{}
+		}
+		w.Bus.Unreachable[wire.Keys(u)] = true
+		w.Bus.mu.Unlock()
+		return m, u
+	}
 	rnd := channel.ID{0xde, 0xad, byte(n)}
 	known := a.parentID
 	if a.cur == nil {
